@@ -151,6 +151,19 @@ func (s *Sym) MakeFn(name string, args ...*RF) *RF {
 		} else if c != nil && c.Name == "cmp!=" {
 			return s.MakeFn("ite", s.MakeFn("cmp==", c.Args...), args[2], args[1])
 		}
+	case "len":
+		if len(args) == 1 {
+			if at := args[0].SingleAtom(); at != nil && at.Name == "copyof" {
+				return s.MakeFn("len", at.Args[0])
+			}
+		}
+	case "builtin:append":
+		// append([]T(nil), xs...) is a fresh copy of xs (the same thing as make+copy)
+		if len(args) == 2 {
+			if n := args[0].SingleAtom(); n != nil && n.Name == "nil" {
+				return s.Fn("copyof", args[1])
+			}
+		}
 	case "shl":
 		// x << c for a constant c is x * 2^c (same wrap-around semantics)
 		if len(args) == 2 {
@@ -182,9 +195,30 @@ func (s *Sym) MakeFn(name string, args ...*RF) *RF {
 		}
 	case "land", "lor":
 		return s.nary(name, args)
-	case "cmp==", "cmp!=":
+	case "cmp==", "cmp!=", "cmp<", "cmp<=":
+		// a comparison whose two sides differ by a constant is decided (reals, A4)
+		if len(args) == 2 {
+			if c, ok := args[0].Sub(args[1]).IsConst(); ok {
+				sg := c.Sign()
+				var t bool
+				switch name {
+				case "cmp==":
+					t = sg == 0
+				case "cmp!=":
+					t = sg != 0
+				case "cmp<":
+					t = sg < 0
+				default:
+					t = sg <= 0
+				}
+				if t {
+					return s.True()
+				}
+				return s.False()
+			}
+		}
 		// commutative: canonical argument order (by rendering)
-		if len(args) == 2 && args[0].String() > args[1].String() {
+		if (name == "cmp==" || name == "cmp!=") && len(args) == 2 && args[0].String() > args[1].String() {
 			args = []*RF{args[1], args[0]}
 		}
 	}
